@@ -204,7 +204,7 @@ func IsDomainName(s string) (labels int, ok bool) {
 	for i := 0; i < len(s); i++ {
 		switch s[i] {
 		case '\\':
-			escape = !escape
+			escape = true // still set at the end only when this backslash took the final dot
 			if off+1 > lenmsg {
 				return labels, false
 			}
